@@ -331,9 +331,11 @@ class Subject:
         """Fresh store, let j writes through, fail afterwards.  -> observation dict of the interrupted compute."""
         cs = self.cs
         self.reset_store()
+        import threading
         self.store.arm(j)
         tr = make_tracer(self.store)
         crashed, err = False, None
+        before_threads = {t.ident for t in threading.enumerate()}
         try:
             self.compute(executor=executor, callbacks=[tr])
         except cs.InjectedCrash:
@@ -343,7 +345,15 @@ class Subject:
             err = type(e).__name__
         self.store.quiesce()
         if executor != "single-threaded":
-            time.sleep(0.05)
+            # a real crash kills the workers; here the in-flight tasks of the pool keep failing (and being retried) against
+            # the downed store: wait until the pool's threads are gone before the store is brought up again
+            t0 = time.time()
+            while time.time() - t0 < 15:
+                alive = [t for t in threading.enumerate() if t.ident not in before_threads
+                         and t.name.startswith("ThreadPoolExecutor") and t.is_alive()]
+                if not alive:
+                    break
+                time.sleep(0.01)
             self.store.quiesce()
         events = list(self.store.state.events)
         finished = []
@@ -353,6 +363,7 @@ class Subject:
                 finished.append(k)
         snap = cs.snapshot(self.store)
         docs = cs.metadata_keys(self.store)
+        self.history = (getattr(self, "history", []) + [("crash", j, executor, list(self.store.state.debug))])[-4:]
         self.store.disarm()
         return {"j": j, "crashed": crashed, "wrapped_error": err, "snap": snap, "docs": docs,
                 "ops_started": started, "ops_finished": finished,
@@ -381,6 +392,8 @@ class Subject:
         out["computed_flags"] = rec.computed
         out["writes"] = [("D:" if not cs.is_chunk_key(k) else "C:") + k for kind, k in events if kind == "set"]
         out["deletes"] = [(kind, k) for kind, k in events if kind in ("delete", "delete_dir", "clear")]
+        self.history = (getattr(self, "history", []) + [("resume", executor, list(self.store.state.debug))])[-4:]
+        out["debug"] = list(self.history)
         out["before"] = before
         out["after_create"] = rec.after_create
         out["after"] = cs.snapshot(self.store)
@@ -436,8 +449,26 @@ def parse_answer(line):
     for part in line.split(" "):
         if "=" in part:
             k, v = part.split("=", 1)
-            out[k] = [] if v == "-" else v.split(",")
+            if k == "writes":
+                out[k] = parse_groups(v)
+            else:
+                out[k] = [] if v == "-" else v.split(",")
     return out
+
+
+def parse_groups(text):
+    return [] if text == "-" else [g.split(",") for g in text.split(";")]
+
+
+def matches_groups(groups, seq):
+    """`seq` is the concatenation of the groups, each in some order (zarr issues the chunk writes of one task
+    concurrently, so their order is not determined)."""
+    i = 0
+    for g in groups:
+        if sorted(seq[i:i + len(g)]) != sorted(g):
+            return False
+        i += len(g)
+    return i == len(seq)
 
 
 def canon_state(docs, snap):
@@ -571,7 +602,8 @@ def run_subject(ctx, desc, optimize, with_model, budget_deadline, procs_left, pe
                           nontrivial=nontrivial,
                           kind="%s/%s/%s" % (desc["kind"], "fused" if optimize else "unfused", ex))
                 if with_model:
-                    reqs.append("crash|%s|%d" % (plan_text, j))
+                    reqs.append("crash|%s|%d|%s|%s" % (plan_text, j, ",".join(cr["docs"]) or "-",
+                                                      ",".join(sorted(cr["snap"])) or "-"))
                     what.append(("crash", cr, rs))
         # crashes with several tasks in flight: the store at the crash is not a prefix of the sequential trace
         if not has_structured and subj.total >= 6 and time.time() < budget_deadline:
@@ -617,20 +649,24 @@ def compare(ctx, subj, what, ans):
     case0 = subj.case
     for (kind, cr, rs), a in zip(what, ans):
         if kind == "trace":
-            seq, _, wf = a.partition(" wf=")
-            model = [] if seq == "-" else seq.split(",")
-            if model != subj.trace:
-                ctx.disagree("trace: write sequence of the uninterrupted sequential run", case0, model[:40], subj.trace[:40])
+            seq, _, rest = a.partition(" wf=")
+            wf, _, flat = rest.partition(" flat=")
+            model = parse_groups(seq)
+            if not matches_groups(model, subj.trace):
+                ctx.disagree("trace: write sequence of the uninterrupted sequential run (order inside one task free)",
+                             case0, model[:40], subj.trace[:40])
             if wf != "111":
                 ctx.disagree("hypotheses single-writer/topological/exact-cover hold on the real plan (wf bits)", case0, "111", wf)
+            if flat != "1":
+                ctx.disagree("driver: grouped sequence = Resume.trace", case0, flat, "1")
             continue
         m = parse_answer(a)
         case = dict(case0, j=cr["j"], resume_executor=rs["executor"])
         if kind == "crash":
             docs, chunks = canon_state(cr["docs"], cr["snap"])
-            if (m.get("docs"), m.get("chunks")) != (docs, chunks):
-                ctx.disagree("crash: store after j writes = prefix of the write sequence", case,
-                             {"docs": m.get("docs"), "chunks": m.get("chunks")}, {"docs": docs, "chunks": chunks})
+            if m.get("prefix") != ["1"]:
+                ctx.disagree("crash: store after j writes = a prefix of the write sequence", case,
+                             "not a prefix state", {"docs": docs, "chunks": chunks})
         outcome = (m.get("outcome") or ["?"])[0]
         if rs["exception"] is not None:
             impl = "refused:" + ("NotImplementedError" if rs["exception"] == "NotImplementedError" else "structured-not-created"
@@ -649,11 +685,13 @@ def compare(ctx, subj, what, ans):
             if skipped_model != skipped_impl:
                 ctx.disagree("resume: nodes marked computed (already_computed)", case, skipped_model, skipped_impl)
         mw = m.get("writes") or []
+        flat = [w for g in mw for w in g]
         if rs["executor"] == "single-threaded":
-            if mw != rs["writes"]:
-                ctx.disagree("resume: write sequence of the resumed run", case, mw[:40], rs["writes"][:40])
-        elif sorted(mw) != sorted(rs["writes"]):
-            ctx.disagree("resume: writes of the resumed run (as a multiset)", case, sorted(mw)[:40], sorted(rs["writes"])[:40])
+            if not matches_groups(mw, rs["writes"]):
+                ctx.disagree("resume: write sequence of the resumed run (order inside one task free)",
+                             dict(case, debug=rs.get("debug", [])[:60]), mw[:40], rs["writes"][:40])
+        elif sorted(flat) != sorted(rs["writes"]):
+            ctx.disagree("resume: writes of the resumed run (as a multiset)", case, sorted(flat)[:40], sorted(rs["writes"])[:40])
         if m.get("lost") != ["0"]:
             ctx.disagree("create step keeps every chunk (model side)", case, m.get("lost"), "0")
         if m.get("refines") != ["1"]:
@@ -707,7 +745,7 @@ def campaign(ctx, n_programs, with_model, seconds, procs):
 def corr(ctx):
     from common import use_repo
     use_repo()
-    n = campaign(ctx, ctx.budget(14, 120), True, ctx.budget(75, 600), ctx.budget(2, 16))
+    n = campaign(ctx, ctx.budget(14, 120), True, ctx.budget(70, 560), ctx.budget(1, 8))
     ctx.notes.append("corr: %d (crash, resume) experiments, each also judged by the direct oracle" % n)
     if ctx.tier == "thorough":
         ctx.exhaustive = False
@@ -719,11 +757,11 @@ def oracle(ctx):
     from common import use_repo
     use_repo()
     if _CACHE["obs"] == 0:
-        n = campaign(ctx, ctx.budget(14, 120), False, ctx.budget(75, 600), ctx.budget(2, 16))
+        n = campaign(ctx, ctx.budget(14, 120), False, ctx.budget(70, 560), ctx.budget(1, 8))
         ctx.notes.append("oracle: %d (crash, resume) experiments without the model" % n)
     else:
         # an additional independent sample with fresh programs
-        n = campaign(ctx, ctx.budget(4, 30), False, ctx.budget(20, 150), 0)
+        n = campaign(ctx, ctx.budget(4, 30), False, ctx.budget(15, 120), 0)
         ctx.notes.append("oracle: %d additional (crash, resume) experiments without the model" % n)
     fresh_resume(ctx)
 
